@@ -157,6 +157,18 @@ CHECKS = {
              'stay pending.',
         note='Trusted: mc/simtor.py SETCONF semantics, refs/kvline.py. Known findings: emptied list sends no key; comma lists '
              'are sent as repeated keys (both pinned by the repository\'s tests).'),
+    'C11': dict(
+        engine=E2, design='DESIGN.md section 4 / C11',
+        technique='input enumeration of option tables through the real TorConfig bootstrap plus explicit-state BFS over '
+                  'CONF_CHANGED / edit / save histories, reads compared with the simulated Tor store by declared type and shape',
+        text='Part A: 11 options (one per declared type, incl. a *Port option declared the way Tor\'s VPORT macro does) x {one '
+             'value, several values, unset} x {default listed, not listed, config/defaults unsupported}, read by exact / lower / '
+             'upper-case name, plus all ordered pairs and all triples of options and socks_endpoint(). Part B: from a six-option '
+             'configuration every history of <= 3 (quick) / 4 (thorough) events over {CONF_CHANGED to 0/1/many values, local '
+             'edit, save} modulo canonical state; after every event reads equal the store with the shape they had after '
+             'bootstrap, and after a change event on a list option append+save must carry old and new elements.',
+        note='Trusted: mc/simtor.py (GETCONF/config/names/config/defaults/CONF_CHANGED rendering). Unset is explored only for '
+             'types Tor can leave NULL; an external change racing an unsaved local edit of the same option is excluded.'),
 }
 
 PENDING = {}
